@@ -1,6 +1,7 @@
 package main
 
 import (
+	"bytes"
 	"encoding/json"
 	"fmt"
 	"log/slog"
@@ -416,6 +417,19 @@ func execC20Stream(c *child.Ctx, t int, r *ref.SplitMix64) {
 		in = append(in, gen.Junk(r).Bytes...)
 	}
 	in = append(in, frame...)
+	if r.Chance(1, 2) {
+		// an MSM frame that arrives damaged (its CRC does not match): other data, which
+		// carries no time
+		bad := timeFrame(r, mt, ts+1000)
+		bad[len(bad)-1-r.Intn(3)] ^= 1 << uint(r.Intn(8))
+		hasD3 := false
+		for _, b := range bad[1:] {
+			hasD3 = hasD3 || b == 0xd3
+		}
+		if !hasD3 {
+			in = append(in, bad...)
+		}
+	}
 	in = append(in, gen.Junk(r).Bytes...)
 	in = append(in, first[:r.Range(1, len(first)-1)]...)
 	defer func() {
@@ -452,6 +466,16 @@ func execC20Stream(c *child.Ctx, t int, r *ref.SplitMix64) {
 	if !sawT {
 		c.Violate("framing", fmt.Sprintf("the stream handler did not deliver the type %d frame as that type", t), cj)
 		return
+	}
+	if t >= 0 && (t%400 == 77 || t == 1005 || t == 1077) {
+		// the same frame arriving slowly: a third of a second of silence in the middle of
+		// it.  What type a frame has does not depend on how fast it arrives.
+		slow := runTimed(frame, map[int]time.Duration{len(frame) / 2: 320 * time.Millisecond}, 0)
+		if len(slow) != 1 || slow[0].MessageType != t || !bytes.Equal(slow[0].RawData, frame) {
+			c.Violate("framing", fmt.Sprintf("a type %d frame that arrives with 320 ms of silence in the middle is delivered as%s; single-frame decoding of the same bytes says type %d", t, describeMsgs(slow, 4), t), cj)
+			return
+		}
+		c.Count("frames_classified_while_arriving_slowly", 1)
 	}
 	c.Count("stream_classifications_checked", 1)
 }
